@@ -1021,12 +1021,14 @@ pub struct Flags {
     pub merkle: u8,
     pub loc: u8,
     pub win: u8,
+    /// verify_tx itself drops a privileged-type transaction (a tree may refuse them at the pool only)
+    pub vdrop: u8,
 }
 impl Flags {
     pub fn line(&self) -> String {
         format!(
-            "flags txv={} dup={} own={} stake={} spv={} fee={} pool={} merkle={} loc={} win={}",
-            self.txv, self.dup, self.own, self.stake, self.spv, self.fee, self.pool, self.merkle, self.loc, self.win
+            "flags txv={} dup={} own={} stake={} spv={} fee={} pool={} merkle={} loc={} win={} vdrop={}",
+            self.txv, self.dup, self.own, self.stake, self.spv, self.fee, self.pool, self.merkle, self.loc, self.win, self.vdrop
         )
     }
 }
@@ -1176,7 +1178,11 @@ pub async fn calibrate() -> Flags {
     fl.own = (!run_tx(&node, &tv("foreign-owned-extra-input")).await.v1) as u8;
     fl.stake = (!run_tx(&node, &tv("typed-blockstake-unsigned-spends-foreign-output")).await.v1) as u8;
     fl.spv = (!run_tx(&node, &tv("typed-spv-unsigned-spends-foreign-output")).await.v1) as u8;
-    fl.pool = (run_tx(&node, &tv("typed-fee-unsigned-spends-foreign-output")).await.pool != "acc") as u8;
+    {
+        let o = run_tx(&node, &tv("typed-fee-unsigned-spends-foreign-output")).await;
+        fl.pool = (o.pool != "acc") as u8;
+        fl.vdrop = (o.vt != "fwd") as u8;
+    }
     // fee: a ticket-less block carrying a Fee-typed transaction that moves a foreign output
     {
         let (user, signers) = apply_edit(&scn.f, &base, &one("typed-fee-unsigned-spends-foreign-output"), &pools).unwrap();
@@ -1292,8 +1298,9 @@ pub async fn tx_case(out: &mut Out, w: &World, ename: &'static str, p: usize, ip
     out.case(&line, &format!("v1={} v0={} pool={} vt={}", o.v1 as u8, o.v0 as u8, o.pool, o.vt));
     out.count(&format!("tx:{}:{}", name, ename));
     out.count(&format!("tx-verdict:{}", o.v1 as u8));
-    // monitor: what the pool let in
-    if o.pool == "acc" || o.vt == "fwd" {
+    // monitor: what the pool lets in. A peer transaction is pooled only if verify_tx forwards it AND the mempool admits
+    // it; a tree that forwards a transaction from the verification thread and refuses it at the mempool has not let it in
+    if o.pool == "acc" && o.vt == "fwd" {
         let mut t = tx.clone();
         t.generate(&key(9).0, 0, 0);
         let mut seen = HashSet::new();
